@@ -23,7 +23,7 @@ COMPONENTS = {"real": ["mofun.replace_pattern_in_structure (twice per history)",
 ASSUMPTIONS = ["identity is asserted with a term-free copy of the pattern (a pattern that brings terms legitimately changes the term sets)",
                "A->B->A equality within the placement bound 2*(3*K*eps*sqrt(n)) + 1e-6 (exact for single atoms and noise-free copies)",
                "the second search of 'gone' must be empty because the replacement lacks an element of the pattern"]
-NRUNS = {"quick": 900, "thorough": 20000}
+NRUNS = {"quick": 6000, "thorough": 80000}
 RUN_TIMEOUT = 300.0
 MUST_REACH = ["identity_histories", "aba_histories", "gone_histories", "real_file_runs"]
 
